@@ -304,3 +304,61 @@ func zz14Elements(field, mode int) {
 		vrt.Assert("C14/array-missing-element-zeroed", v.AS[1] == zz14Inner{})
 	}
 }
+
+// zz14N: one field per destination kind for "a JSON null zeroes its destination".
+type zz14N struct {
+	BA [3]byte         `json:"ba"`
+	BS []byte          `json:"bs"`
+	IA [2]int8         `json:"ia"`
+	P  *int8           `json:"p"`
+	M  map[string]int8 `json:"m"`
+	L  []int8          `json:"l"`
+	S  string          `json:"s"`
+	B  bool            `json:"b"`
+	T  zz14Inner       `json:"t"`
+	I  any             `json:"i"`
+	F  float64         `json:"f"`
+	U  uint8           `json:"u"`
+	PP **int8          `json:"pp"`
+}
+
+// VerifC14Null: every field of zz14N holds a non-zero value (from a first Unmarshal when
+// viaJSON, else set in Go); a second text {"<name>":null} names one field chosen by the solver.
+// That field is zeroed, every other field is kept.
+func VerifC14Null(viaJSON bool) {
+	var v zz14N
+	d := vrt.Byte("d")
+	vrt.Assume(d >= '1' && d <= '9')
+	n := int8(d - '0')
+	if viaJSON {
+		j1 := []byte(`{"ba":"AQID","bs":"BAU=","ia":[` + string(d) + `,2],"p":3,"m":{"k":4},"l":[5],"s":"x","b":true,"t":{"x":6,"y":"z"},"i":[7],"f":1.5,"u":8,"pp":9}`)
+		err := Unmarshal(j1, &v)
+		vrt.Assert("C14/null/first-accepted", err == nil)
+		if err != nil {
+			return
+		}
+	} else {
+		p, q := int8(3), int8(9)
+		pq := &q
+		v = zz14N{BA: [3]byte{1, 2, 3}, BS: []byte{4, 5}, IA: [2]int8{n, 2}, P: &p, M: map[string]int8{"k": 4}, L: []int8{5}, S: "x", B: true,
+			T: zz14Inner{X: 6, Y: "z"}, I: []any{7.0}, F: 1.5, U: 8, PP: &pq}
+	}
+	names := []string{"ba", "bs", "ia", "p", "m", "l", "s", "b", "t", "i", "f", "u", "pp"}
+	k := vrt.Choice("field", len(names))
+	err := Unmarshal([]byte(`{"`+names[k]+`":null}`), &v)
+	vrt.Assert("C14/null/accepted", err == nil)
+	if err != nil {
+		return
+	}
+	zero := []bool{v.BA == [3]byte{}, v.BS == nil, v.IA == [2]int8{}, v.P == nil, v.M == nil, v.L == nil, v.S == "", !v.B, v.T == zz14Inner{}, v.I == nil, v.F == 0, v.U == 0, v.PP == nil}
+	kept := []bool{v.BA == [3]byte{1, 2, 3}, len(v.BS) == 2 && v.BS[0] == 4 && v.BS[1] == 5, v.IA == [2]int8{n, 2}, v.P != nil && *v.P == 3, len(v.M) == 1 && v.M["k"] == 4,
+		len(v.L) == 1 && v.L[0] == 5, v.S == "x", v.B, v.T == zz14Inner{X: 6, Y: "z"}, v.I != nil, v.F == 1.5, v.U == 8, v.PP != nil && *v.PP != nil && **v.PP == 9}
+	for i := range names {
+		if i == k {
+			vrt.Assert("C14/null/destination-zeroed", zero[i])
+		} else {
+			vrt.Assert("C14/null/other-fields-kept", kept[i])
+		}
+	}
+	vrt.Cover("checked")
+}
